@@ -410,6 +410,9 @@ func do(line string) string {
 		run.Op(line, "bad-op", "bad-op", false)
 		return "bad-op"
 	}
+	if isCallerOp(ws[0]) {
+		return doCaller(line, ws)
+	}
 	pb, before := snapshot()
 	szBefore := stride
 	out, mut := exec(ws)
@@ -696,6 +699,7 @@ func main() {
 		panic(err)
 	}
 	defer os.RemoveAll(dir)
+	defer closeEnv()
 	if w := os.Getenv("VERIF_WORK"); w != "" {
 		if f, err := os.OpenFile(filepath.Join(w, "cleanup.txt"), os.O_APPEND|os.O_CREATE|os.O_WRONLY, 0o644); err == nil {
 			fmt.Fprintf(f, "dir %s\n", dir)
